@@ -38,6 +38,7 @@ type Gen struct {
 	O     Opts
 	n     int
 	nodes int
+	objs  []ap.IRI // ids of the embedded objects generated so far (see Item: an item may be mentioned twice)
 }
 
 func NewGen(t *rapid.T, o Opts) *Gen {
@@ -179,6 +180,11 @@ func (g *Gen) Item(depth int) ap.Item {
 	if depth <= 0 || g.nodes >= g.O.MaxNodes {
 		k = 0
 	}
+	if len(g.objs) > 0 && rapid.IntRange(0, 14).Draw(g.T, "mention-again") == 0 {
+		// the same item mentioned at a second position, this time as a bare IRI (the actor of a self-Delete is also its object);
+		// never inside a list, whose members are pairwise distinct
+		return g.objs[rapid.IntRange(0, len(g.objs)-1).Draw(g.T, "which")]
+	}
 	switch {
 	case k < 4:
 		return g.ID("iri")
@@ -256,6 +262,9 @@ func (g *Gen) Value(goType string, depth int, embedded bool) ap.Item {
 	}
 	if !idless {
 		v.FieldByName("ID").SetString(string(g.ID(idKinds[goType])))
+		if embedded && goType != "Link" {
+			g.objs = append(g.objs, ap.IRI(v.FieldByName("ID").String()))
+		}
 	}
 	v.FieldByName("Type").SetString(string(typ))
 	dens := rapid.SampledFrom(g.O.Density).Draw(g.T, "density")
